@@ -22,17 +22,6 @@ deriving Repr, DecidableEq
 
 def Checks.all : Checks := ⟨true, true, true⟩
 
-mutual
-/-- every path through the statement ends in `return <expr>` -/
-def stmtReturns : PyStmt → Bool
-  | .ret _ => true
-  | .ifs _ t e => bodyReturns t && bodyReturns e
-  | _ => false
-def bodyReturns : List PyStmt → Bool
-  | [] => false
-  | s :: rest => stmtReturns s || bodyReturns rest
-end
-
 def isCmp : PyExpr → Bool
   | .cmp _ _ _ => true
   | _ => false
